@@ -1,8 +1,20 @@
 import Infretis.Model.RunnerProto
+import Infretis.Model.RunnerSysProto
+import Infretis.Model.SchedCtrProto
 import Infretis.Model.RepexProto
-/-! C17 driver: `runner-…` ops go to the stateless runner handler (trace validation),
-    everything else to the stateful replica-exchange protocol (scheduler arithmetic). -/
+/-! C17 driver: `runner-…` ops go to the stateless runner handler (trace validation), `rsys-…` ops to the
+    fine-grained runner system (the runner's own code as a transition system), `sched-…` ops to the
+    counter-level scheduler model, everything else to the stateful replica-exchange protocol
+    (scheduler arithmetic). -/
 open Infretis.Repex
+
+def stateless (toks : List String) : Option String :=
+  match Infretis.Runner.handle toks with
+  | some r => some r
+  | none =>
+    match Infretis.RunnerSys.handle toks with
+    | some r => some r
+    | none => Infretis.SchedCtr.handle toks
 
 partial def c17Loop (h out : IO.FS.Stream) (d : DState) : IO Unit := do
   let line ← h.getLine
@@ -11,7 +23,7 @@ partial def c17Loop (h out : IO.FS.Stream) (d : DState) : IO Unit := do
     return ()
   let l := (line.dropEndWhile (fun c => c = '\n' || c = '\r')).toString
   let toks := (l.splitOn " ").filter (fun t => t ≠ "")
-  match Infretis.Runner.handle toks with
+  match stateless toks with
   | some r =>
     out.putStrLn r
     c17Loop h out d
